@@ -619,8 +619,71 @@ theorem eqWith_ok (inv : Inv sz s) {x y : Nat} {lx ly : RawList}
     rw [e1, e2, setAlloc_setAlloc, setAlloc_comm _ (Ne.symm hxy), setAlloc_setAlloc, setAlloc_self hx,
       setAlloc_self hy]
 
+/-- the same with the locks taken in the other order (`other` first): the
+    address-ordered form of `ErasedList::eq` -/
+theorem eqWith_ok_rev (inv : Inv sz s) {x y : Nat} {lx ly : RawList}
+    (hx : s.getAlloc x = some lx) (hy : s.getAlloc y = some ly)
+    (cmp : RawList → RawList → E Bool)
+    (hcmp : cmp { lx with locked := true } { ly with locked := true } = .ok (decide (lx.elems = ly.elems))) :
+    eqWith true [.other, .self_] (1, 0) cmp s x y = .ok (.bool (decide (lx.elems = ly.elems)), s) := by
+  unfold eqWith
+  by_cases hxy : x = y
+  · subst hxy
+    rw [hx] at hy; injection hy with hy; subst hy
+    simp
+  · have hne : (x == y) = false := by simp [hxy]
+    simp only [hne, Bool.and_false, Bool.false_eq_true, if_false, List.map, resolve]
+    have hkx := (inv.raw x lx hx).2.1
+    have hky := (inv.raw y ly hy).2.1
+    have hyx : y ≠ x := Ne.symm hxy
+    have a1 : acquire s y = .ok (s.setAlloc y (some { ly with locked := true }), ly) := acquire_live hy hky
+    have g1 : (s.setAlloc y (some { ly with locked := true })).getAlloc x = some lx := by
+      rw [getAlloc_setAlloc_live hy, if_neg hyx]; exact hx
+    have a2 := acquire_live g1 hkx
+    simp only [acquireAll, a1, a2]
+    have g2y : ((s.setAlloc y (some { ly with locked := true })).setAlloc x (some { lx with locked := true })).getAlloc y
+        = some { ly with locked := true } := by
+      rw [getAlloc_setAlloc_live g1, if_neg hxy, getAlloc_setAlloc_live hy, if_pos rfl]
+    have g2x : ((s.setAlloc y (some { ly with locked := true })).setAlloc x (some { lx with locked := true })).getAlloc x
+        = some { lx with locked := true } := by
+      rw [getAlloc_setAlloc_live g1, if_pos rfl]
+    simp only [List.getElem?_cons_zero, List.getElem?_cons_succ, g2x, g2y, hcmp, List.reverse_cons,
+      List.reverse_nil, List.nil_append, List.cons_append]
+    have u1 := unlockAt_live g2x
+    have g3y : (((s.setAlloc y (some { ly with locked := true })).setAlloc x (some { lx with locked := true })).setAlloc x
+        (some { ({ lx with locked := true } : RawList) with locked := false })).getAlloc y = some { ly with locked := true } := by
+      rw [getAlloc_setAlloc_live g2x, if_neg hxy]; exact g2y
+    have u2 := unlockAt_live g3y
+    simp only [unlockAll, u1, u2]
+    have e1 : ({ ({ lx with locked := true } : RawList) with locked := false } : RawList) = lx := by
+      cases lx; simp at hkx; subst hkx; rfl
+    have e2 : ({ ({ ly with locked := true } : RawList) with locked := false } : RawList) = ly := by
+      cases ly; simp at hky; subst hky; rfl
+    rw [e1, e2, setAlloc_setAlloc, setAlloc_comm _ hxy, setAlloc_setAlloc, setAlloc_self hy,
+      setAlloc_self hx]
+
 theorem typedEq_def : typedEq = eqWith true [.self_, .other] (0, 1) rawEqTyped := rfl
-theorem erasedEq_def : erasedEq = eqWith true [.self_, .other] (0, 1) rawEqErased := rfl
+
+/-- `ErasedList::eq` with the generated lock facts — sequential `[self, other]`,
+    or ordered by address (`[other, self]` when `self` is not below `other`) —
+    never dead-locks, restores the store, answers list equality -/
+theorem erasedEq_ok (inv : Inv sz s) {x y : Nat} {lx ly : RawList}
+    (hx : s.getAlloc x = some lx) (hy : s.getAlloc y = some ly) :
+    erasedEq s x y = .ok (.bool (decide (lx.elems = ly.elems)), s) := by
+  have wx := (inv.raw x lx hx).1.wf
+  have wy := (inv.raw y ly hy).1.wf
+  have hc := rawEqErased_eq (a := { lx with locked := true }) (b := { ly with locked := true }) wx wy
+  have hlt : Gen.ListLocks.erasedEqShortcut = true ∧ Gen.ListLocks.erasedEqLocksLt = [.self_, .other] ∧
+      Gen.ListLocks.erasedEqCompareLt = (0, 1) := by decide
+  have hge : (Gen.ListLocks.erasedEqLocksGe = [.self_, .other] ∧ Gen.ListLocks.erasedEqCompareGe = (0, 1)) ∨
+      (Gen.ListLocks.erasedEqLocksGe = [.other, .self_] ∧ Gen.ListLocks.erasedEqCompareGe = (1, 0)) := by decide
+  unfold erasedEq
+  rw [hlt.1, hlt.2.1, hlt.2.2]
+  split
+  · exact eqWith_ok inv hx hy _ hc
+  · rcases hge with ⟨h1, h2⟩ | ⟨h1, h2⟩
+    · rw [h1, h2]; exact eqWith_ok inv hx hy _ hc
+    · rw [h1, h2]; exact eqWith_ok_rev inv hx hy _ hc
 
 theorem good_eq (inv : Inv sz s) (rel : Rel s t) (a b : Nat) (typed : Bool) :
     Good sz s t (.eq a b typed) := by
@@ -637,8 +700,8 @@ theorem good_eq (inv : Inv sz s) (rel : Rel s t) (a b : Nat) (typed : Bool) :
           simp only [if_true, typedEq_def]
           exact eqWith_ok inv hx hy _ (rawEqTyped_eq (a := { lx with locked := true }) (b := { ly with locked := true }) wx wy)
         | false =>
-          simp only [Bool.false_eq_true, if_false, erasedEq_def]
-          exact eqWith_ok inv hx hy _ (rawEqErased_eq (a := { lx with locked := true }) (b := { ly with locked := true }) wx wy)
+          simp only [Bool.false_eq_true, if_false]
+          exact erasedEq_ok inv hx hy
       · simp only [specStep, vec_ok rel hsa hx, vec_ok rel hsb hy, eraseCap]
       · simp only [specStep, vec_ok rel hsa hx, vec_ok rel hsb hy]; exact rel
     · refine good_of_bad ?_ ?_ inv rel
@@ -691,22 +754,34 @@ theorem concatRun_cons_err {x y : Nat} {c : St × Option Nat} {st : CStep} {rest
 theorem RawOk_locked {l : RawList} (ok : RawOk sz l) (b : Bool) : RawOk sz { l with locked := b } :=
   ⟨ok.wf, ok.le, ok.bound, ok.zst, ok.shape⟩
 
-theorem concatSteps_def : Gen.ListLocks.concatSteps =
-    [.lock .self_, .allocNew, .lockNew, .extendFrom .self_, .unlock .self_, .lock .other,
-     .extendFrom .other, .unlock .other, .unlockNew] := rfl
+/-- `concat` that locks its operands one after the other (`drop(a)` before `other.lock()`) -/
+def seqSteps : List CStep :=
+  [.lock .self_, .allocNew, .lockNew, .extendFrom .self_, .unlock .self_, .lock .other,
+   .extendFrom .other, .unlock .other, .unlockNew]
+
+/-- `concat` that keeps both operands locked: both are the same list -/
+def sameSteps : List CStep :=
+  [.lock .self_, .allocNew, .lockNew, .extendFrom .self_, .extendFrom .self_, .unlockNew, .unlock .self_]
+
+/-- … distinct lists, after both were locked (in either order) -/
+def bothTail : List CStep :=
+  [.allocNew, .lockNew, .extendFrom .self_, .extendFrom .other, .unlockNew, .unlock .other, .unlock .self_]
+
+def ltSteps : List CStep := .lock .self_ :: .lock .other :: bothTail
+def geSteps : List CStep := .lock .other :: .lock .self_ :: bothTail
 
 /-- `ErasedList::concat` as written (generated statement order): no dead-lock
     for any pair of operands (also `l.concat(&l)`), operands restored, the new
     list holds `self ++ other` -/
-theorem concat_ok (inv : Inv sz s) {x y : Nat} {lx ly : RawList}
+theorem concat_ok_seq (inv : Inv sz s) {x y : Nat} {lx ly : RawList}
     (hx : s.getAlloc x = some lx) (hy : s.getAlloc y = some ly) :
-    (concatRun sz x y (s, none) Gen.ListLocks.concatSteps = .error .panic ∧
+    (concatRun sz x y (s, none) seqSteps = .error .panic ∧
       ∃ k, usizeMax < nextPow2 k ∧ k ≤ lx.len + ly.len) ∨
-    ∃ ln, concatRun sz x y (s, none) Gen.ListLocks.concatSteps =
+    ∃ ln, concatRun sz x y (s, none) seqSteps =
         .ok ({ (s.pushAlloc ln) with live := s.live + lx.len + ly.len }, some s.allocs.length) ∧
       ln.elems = lx.elems ++ ly.elems ∧ ln.len = lx.len + ly.len ∧ RawOk sz ln ∧
       ln.locked = false ∧ ln.rc = 1 := by
-  rw [concatSteps_def]
+  unfold seqSteps
   have ⟨hxn, gx⟩ := getAlloc_some_lt hx
   have ⟨hyn, gy⟩ := getAlloc_some_lt hy
   have ⟨okx, kx, _, _⟩ := inv.raw x lx hx
@@ -845,6 +920,330 @@ theorem concat_ok (inv : Inv sz s) {x y : Nat} {lx ly : RawList}
       · show ln2.rc = 1
         rw [y4, x4]; exact e04
 
+
+
+theorem concat_allocs_same (S : List (Option RawList)) (x : Nat)
+    (Lx lx l0 L0 ln1 ln2 ln : Option RawList)
+    (hx : x < S.length) (gx : S[x]? = some lx) :
+    ((((((((S.set x Lx) ++ [l0]).set S.length L0).set S.length ln1).set S.length ln2).set S.length ln).set x lx))
+      = S ++ [ln] := by
+  simp [List.set_append, hx]
+  exact set_self_of_getElem? gx
+
+theorem concat_allocs_both (S : List (Option RawList)) (x y : Nat)
+    (Lx lx Ly ly l0 L0 ln1 ln2 ln : Option RawList)
+    (hx : x < S.length) (hy : y < S.length) (hxy : x ≠ y)
+    (gx : S[x]? = some lx) (gy : S[y]? = some ly) :
+    (((((((((S.set x Lx).set y Ly) ++ [l0]).set S.length L0).set S.length ln1).set S.length ln2).set
+      S.length ln).set y ly).set x lx) = S ++ [ln] := by
+  simp [List.set_append, hx, hy]
+  rw [List.set_comm _ _ hxy, List.set_set, set_self_of_getElem? gy, set_self_of_getElem? gx]
+
+/-- `concat` keeping `self` locked, both operands the same list -/
+theorem concat_ok_same (inv : Inv sz s) {x : Nat} {lx : RawList} (hx : s.getAlloc x = some lx) :
+    (concatRun sz x x (s, none) sameSteps = .error .panic ∧
+      ∃ k, usizeMax < nextPow2 k ∧ k ≤ lx.len + lx.len) ∨
+    ∃ ln, concatRun sz x x (s, none) sameSteps =
+        .ok ({ (s.pushAlloc ln) with live := s.live + lx.len + lx.len }, some s.allocs.length) ∧
+      ln.elems = lx.elems ++ lx.elems ∧ ln.len = lx.len + lx.len ∧ RawOk sz ln ∧
+      ln.locked = false ∧ ln.rc = 1 := by
+  unfold sameSteps
+  have ⟨hxn, gx⟩ := getAlloc_some_lt hx
+  have ⟨okx, kx, _, _⟩ := inv.raw x lx hx
+  have ⟨l0, h0, e01, e02, e03, e04, ok0⟩ := newRaw_ok sz
+  have elx : ({ ({ lx with locked := true } : RawList) with locked := false } : RawList) = lx := by
+    cases lx; simp at kx; subst kx; rfl
+  have hnx : s.allocs.length ≠ x := by omega
+  obtain ⟨S1, hS1⟩ : ∃ S1, S1 = s.setAlloc x (some { lx with locked := true }) := ⟨_, rfl⟩
+  have st1 : concatStep sz x x (s, none) (.lock .self_) = .ok (S1, none) := by
+    simp only [concatStep, resolve, acquire_live hx kx, hS1]
+  have g1 : ∀ b, S1.getAlloc b = if x = b then some { lx with locked := true } else s.getAlloc b := by
+    intro b; rw [hS1]; exact getAlloc_setAlloc_live hx _ b
+  have len1 : S1.allocs.length = s.allocs.length := by rw [hS1]; simp [St.setAlloc]
+  rw [concatRun_cons_ok st1]
+  obtain ⟨S2, hS2⟩ : ∃ S2, S2 = S1.pushAlloc l0 := ⟨_, rfl⟩
+  have st2 : concatStep sz x x (S1, none) .allocNew = .ok (S2, some s.allocs.length) := by
+    simp only [concatStep, h0, len1, hS2]
+  have g2 : ∀ b, S2.getAlloc b = if b = s.allocs.length then some l0 else S1.getAlloc b := by
+    intro b; rw [hS2, getAlloc_pushAlloc, len1]
+  rw [concatRun_cons_ok st2]
+  have g2n : S2.getAlloc s.allocs.length = some l0 := by rw [g2, if_pos rfl]
+  obtain ⟨S3, hS3⟩ : ∃ S3, S3 = S2.setAlloc s.allocs.length (some { l0 with locked := true }) := ⟨_, rfl⟩
+  have st3 : concatStep sz x x (S2, some s.allocs.length) .lockNew = .ok (S3, some s.allocs.length) := by
+    simp only [concatStep, acquire_live g2n e03, hS3]
+  have g3 : ∀ b, S3.getAlloc b = if s.allocs.length = b then some { l0 with locked := true } else S2.getAlloc b := by
+    intro b; rw [hS3]; exact getAlloc_setAlloc_live g2n _ b
+  rw [concatRun_cons_ok st3]
+  have g3n : S3.getAlloc s.allocs.length = some { l0 with locked := true } := by rw [g3, if_pos rfl]
+  have g3x : S3.getAlloc x = some { lx with locked := true } := by
+    rw [g3, if_neg hnx, g2, if_neg (Ne.symm hnx), g1, if_pos rfl]
+  cases he1 : rawExtend sz { l0 with locked := true } { lx with locked := true } with
+  | error f =>
+    left
+    have ⟨hf, hb⟩ := rawExtend_error he1 (RawOk_locked ok0 true) (RawOk_locked okx true)
+    subst hf
+    refine ⟨?_, l0.len + lx.len, hb, by rw [e01]; omega⟩
+    apply concatRun_cons_err
+    simp only [concatStep, resolve, g3n, g3x, he1]
+    simp
+  | ok ln1 =>
+    have ⟨x1, x2, x3, x4, _, ok1⟩ := rawExtend_ok he1 (RawOk_locked ok0 true) (RawOk_locked okx true)
+    obtain ⟨S4, hS4⟩ : ∃ S4, S4 = ({ (S3.setAlloc s.allocs.length (some ln1)) with live := S3.live + lx.len } : St) := ⟨_, rfl⟩
+    have st4 : concatStep sz x x (S3, some s.allocs.length) (.extendFrom .self_) = .ok (S4, some s.allocs.length) := by
+      simp only [concatStep, resolve, g3n, g3x, he1, hS4]
+      simp
+    have g4 : ∀ b, S4.getAlloc b = if s.allocs.length = b then some ln1 else S3.getAlloc b := by
+      intro b; rw [hS4]; exact getAlloc_setAlloc_live g3n _ b
+    rw [concatRun_cons_ok st4]
+    have g4n : S4.getAlloc s.allocs.length = some ln1 := by rw [g4, if_pos rfl]
+    have g4x : S4.getAlloc x = some { lx with locked := true } := by rw [g4, if_neg hnx]; exact g3x
+    have k1 : ln1.locked = true := x3
+    cases he2 : rawExtend sz ln1 { lx with locked := true } with
+    | error f =>
+      left
+      have ⟨hf, hb⟩ := rawExtend_error he2 ok1 (RawOk_locked okx true)
+      subst hf
+      refine ⟨?_, ln1.len + lx.len, hb, by rw [x2, e01]; simp⟩
+      apply concatRun_cons_err
+      simp only [concatStep, resolve, g4n, g4x, he2]
+      simp [k1]
+    | ok ln2 =>
+      have ⟨y1, y2, y3, y4, _, ok2⟩ := rawExtend_ok he2 ok1 (RawOk_locked okx true)
+      obtain ⟨S5, hS5⟩ : ∃ S5, S5 = ({ (S4.setAlloc s.allocs.length (some ln2)) with live := S4.live + lx.len } : St) := ⟨_, rfl⟩
+      have st5 : concatStep sz x x (S4, some s.allocs.length) (.extendFrom .self_) = .ok (S5, some s.allocs.length) := by
+        simp only [concatStep, resolve, g4n, g4x, he2, hS5]
+        simp [k1]
+      have g5 : ∀ b, S5.getAlloc b = if s.allocs.length = b then some ln2 else S4.getAlloc b := by
+        intro b; rw [hS5]; exact getAlloc_setAlloc_live g4n _ b
+      rw [concatRun_cons_ok st5]
+      have g5n : S5.getAlloc s.allocs.length = some ln2 := by rw [g5, if_pos rfl]
+      obtain ⟨S6, hS6⟩ : ∃ S6, S6 = S5.setAlloc s.allocs.length (some { ln2 with locked := false }) := ⟨_, rfl⟩
+      have st6 : concatStep sz x x (S5, some s.allocs.length) .unlockNew = .ok (S6, some s.allocs.length) := by
+        simp only [concatStep, unlockAt_live g5n, hS6]
+      have g6 : ∀ b, S6.getAlloc b = if s.allocs.length = b then some { ln2 with locked := false } else S5.getAlloc b := by
+        intro b; rw [hS6]; exact getAlloc_setAlloc_live g5n _ b
+      rw [concatRun_cons_ok st6]
+      have g6x : S6.getAlloc x = some { lx with locked := true } := by
+        rw [g6, if_neg hnx, g5, if_neg hnx]; exact g4x
+      obtain ⟨S7, hS7⟩ : ∃ S7, S7 = S6.setAlloc x (some lx) := ⟨_, rfl⟩
+      have st7 : concatStep sz x x (S6, some s.allocs.length) (.unlock .self_) = .ok (S7, some s.allocs.length) := by
+        simp only [concatStep, resolve, unlockAt_live g6x, elx, hS7]
+      rw [concatRun_cons_ok st7]
+      right
+      refine ⟨{ ln2 with locked := false }, ?_, ?_, ?_, RawOk_locked ok2 false, rfl, ?_⟩
+      · simp only [concatRun]
+        congr 1
+        congr 1
+        have hslots : S7.slots = s.slots := by
+          rw [hS7, hS6, hS5, hS4, hS3, hS2, hS1]; rfl
+        have hlive : S7.live = s.live + lx.len + lx.len := by
+          rw [hS7, hS6, hS5, hS4, hS3, hS2, hS1]; rfl
+        have hallocs : S7.allocs = s.allocs ++ [some { ln2 with locked := false }] := by
+          rw [hS7, hS6, hS5, hS4, hS3, hS2, hS1]
+          exact concat_allocs_same s.allocs x _ _ _ _ _ _ _ hxn gx
+        cases S7
+        simp only at hslots hlive hallocs
+        subst hslots hlive hallocs
+        rfl
+      · show ln2.elems = lx.elems ++ lx.elems
+        rw [y1, x1, e02]; rfl
+      · show ln2.len = lx.len + lx.len
+        rw [y2, x2, e01]; simp
+      · show ln2.rc = 1
+        rw [y4, x4]; exact e04
+
+/-- `concat` keeping both (distinct) operands locked: from the state in which
+    both are locked -/
+theorem concat_ok_tail (inv : Inv sz s) {x y : Nat} {lx ly : RawList}
+    (hx : s.getAlloc x = some lx) (hy : s.getAlloc y = some ly) (hxy : x ≠ y) :
+    (concatRun sz x y ((s.setAlloc x (some { lx with locked := true })).setAlloc y
+        (some { ly with locked := true }), none) bothTail = .error .panic ∧
+      ∃ k, usizeMax < nextPow2 k ∧ k ≤ lx.len + ly.len) ∨
+    ∃ ln, concatRun sz x y ((s.setAlloc x (some { lx with locked := true })).setAlloc y
+        (some { ly with locked := true }), none) bothTail =
+        .ok ({ (s.pushAlloc ln) with live := s.live + lx.len + ly.len }, some s.allocs.length) ∧
+      ln.elems = lx.elems ++ ly.elems ∧ ln.len = lx.len + ly.len ∧ RawOk sz ln ∧
+      ln.locked = false ∧ ln.rc = 1 := by
+  unfold bothTail
+  have ⟨hxn, gx⟩ := getAlloc_some_lt hx
+  have ⟨hyn, gy⟩ := getAlloc_some_lt hy
+  have ⟨okx, kx, _, _⟩ := inv.raw x lx hx
+  have ⟨oky, ky, _, _⟩ := inv.raw y ly hy
+  have ⟨l0, h0, e01, e02, e03, e04, ok0⟩ := newRaw_ok sz
+  have elx : ({ ({ lx with locked := true } : RawList) with locked := false } : RawList) = lx := by
+    cases lx; simp at kx; subst kx; rfl
+  have ely : ({ ({ ly with locked := true } : RawList) with locked := false } : RawList) = ly := by
+    cases ly; simp at ky; subst ky; rfl
+  have hnx : s.allocs.length ≠ x := by omega
+  have hny : s.allocs.length ≠ y := by omega
+  have hyx : y ≠ x := Ne.symm hxy
+  obtain ⟨S1, hS1⟩ : ∃ S1, S1 = s.setAlloc x (some { lx with locked := true }) := ⟨_, rfl⟩
+  have g1 : ∀ b, S1.getAlloc b = if x = b then some { lx with locked := true } else s.getAlloc b := by
+    intro b; rw [hS1]; exact getAlloc_setAlloc_live hx _ b
+  have g1y : S1.getAlloc y = some ly := by rw [g1, if_neg hxy]; exact hy
+  obtain ⟨S2, hS2⟩ : ∃ S2, S2 = S1.setAlloc y (some { ly with locked := true }) := ⟨_, rfl⟩
+  have g2 : ∀ b, S2.getAlloc b = if y = b then some { ly with locked := true } else S1.getAlloc b := by
+    intro b; rw [hS2]; exact getAlloc_setAlloc_live g1y _ b
+  have len2 : S2.allocs.length = s.allocs.length := by rw [hS2, hS1]; simp [St.setAlloc]
+  rw [← hS1, ← hS2]
+  obtain ⟨S3, hS3⟩ : ∃ S3, S3 = S2.pushAlloc l0 := ⟨_, rfl⟩
+  have st3 : concatStep sz x y (S2, none) .allocNew = .ok (S3, some s.allocs.length) := by
+    simp only [concatStep, h0, len2, hS3]
+  have g3 : ∀ b, S3.getAlloc b = if b = s.allocs.length then some l0 else S2.getAlloc b := by
+    intro b; rw [hS3, getAlloc_pushAlloc, len2]
+  rw [concatRun_cons_ok st3]
+  have g3n : S3.getAlloc s.allocs.length = some l0 := by rw [g3, if_pos rfl]
+  obtain ⟨S4, hS4⟩ : ∃ S4, S4 = S3.setAlloc s.allocs.length (some { l0 with locked := true }) := ⟨_, rfl⟩
+  have st4 : concatStep sz x y (S3, some s.allocs.length) .lockNew = .ok (S4, some s.allocs.length) := by
+    simp only [concatStep, acquire_live g3n e03, hS4]
+  have g4 : ∀ b, S4.getAlloc b = if s.allocs.length = b then some { l0 with locked := true } else S3.getAlloc b := by
+    intro b; rw [hS4]; exact getAlloc_setAlloc_live g3n _ b
+  rw [concatRun_cons_ok st4]
+  have g4n : S4.getAlloc s.allocs.length = some { l0 with locked := true } := by rw [g4, if_pos rfl]
+  have g4x : S4.getAlloc x = some { lx with locked := true } := by
+    rw [g4, if_neg hnx, g3, if_neg (Ne.symm hnx), g2, if_neg hyx, g1, if_pos rfl]
+  have g4y : S4.getAlloc y = some { ly with locked := true } := by
+    rw [g4, if_neg hny, g3, if_neg (Ne.symm hny), g2, if_pos rfl]
+  cases he1 : rawExtend sz { l0 with locked := true } { lx with locked := true } with
+  | error f =>
+    left
+    have ⟨hf, hb⟩ := rawExtend_error he1 (RawOk_locked ok0 true) (RawOk_locked okx true)
+    subst hf
+    refine ⟨?_, l0.len + lx.len, hb, by rw [e01]; omega⟩
+    apply concatRun_cons_err
+    simp only [concatStep, resolve, g4n, g4x, he1]
+    simp
+  | ok ln1 =>
+    have ⟨x1, x2, x3, x4, _, ok1⟩ := rawExtend_ok he1 (RawOk_locked ok0 true) (RawOk_locked okx true)
+    obtain ⟨S5, hS5⟩ : ∃ S5, S5 = ({ (S4.setAlloc s.allocs.length (some ln1)) with live := S4.live + lx.len } : St) := ⟨_, rfl⟩
+    have st5 : concatStep sz x y (S4, some s.allocs.length) (.extendFrom .self_) = .ok (S5, some s.allocs.length) := by
+      simp only [concatStep, resolve, g4n, g4x, he1, hS5]
+      simp
+    have g5 : ∀ b, S5.getAlloc b = if s.allocs.length = b then some ln1 else S4.getAlloc b := by
+      intro b; rw [hS5]; exact getAlloc_setAlloc_live g4n _ b
+    rw [concatRun_cons_ok st5]
+    have g5n : S5.getAlloc s.allocs.length = some ln1 := by rw [g5, if_pos rfl]
+    have g5y : S5.getAlloc y = some { ly with locked := true } := by rw [g5, if_neg hny]; exact g4y
+    have k1 : ln1.locked = true := x3
+    cases he2 : rawExtend sz ln1 { ly with locked := true } with
+    | error f =>
+      left
+      have ⟨hf, hb⟩ := rawExtend_error he2 ok1 (RawOk_locked oky true)
+      subst hf
+      refine ⟨?_, ln1.len + ly.len, hb, by rw [x2, e01]; simp⟩
+      apply concatRun_cons_err
+      simp only [concatStep, resolve, g5n, g5y, he2]
+      simp [k1]
+    | ok ln2 =>
+      have ⟨y1, y2, y3, y4, _, ok2⟩ := rawExtend_ok he2 ok1 (RawOk_locked oky true)
+      obtain ⟨S6, hS6⟩ : ∃ S6, S6 = ({ (S5.setAlloc s.allocs.length (some ln2)) with live := S5.live + ly.len } : St) := ⟨_, rfl⟩
+      have st6 : concatStep sz x y (S5, some s.allocs.length) (.extendFrom .other) = .ok (S6, some s.allocs.length) := by
+        simp only [concatStep, resolve, g5n, g5y, he2, hS6]
+        simp [k1]
+      have g6 : ∀ b, S6.getAlloc b = if s.allocs.length = b then some ln2 else S5.getAlloc b := by
+        intro b; rw [hS6]; exact getAlloc_setAlloc_live g5n _ b
+      rw [concatRun_cons_ok st6]
+      have g6n : S6.getAlloc s.allocs.length = some ln2 := by rw [g6, if_pos rfl]
+      obtain ⟨S7, hS7⟩ : ∃ S7, S7 = S6.setAlloc s.allocs.length (some { ln2 with locked := false }) := ⟨_, rfl⟩
+      have st7 : concatStep sz x y (S6, some s.allocs.length) .unlockNew = .ok (S7, some s.allocs.length) := by
+        simp only [concatStep, unlockAt_live g6n, hS7]
+      have g7 : ∀ b, S7.getAlloc b = if s.allocs.length = b then some { ln2 with locked := false } else S6.getAlloc b := by
+        intro b; rw [hS7]; exact getAlloc_setAlloc_live g6n _ b
+      rw [concatRun_cons_ok st7]
+      have g7y : S7.getAlloc y = some { ly with locked := true } := by
+        rw [g7, if_neg hny, g6, if_neg hny]; exact g5y
+      obtain ⟨S8, hS8⟩ : ∃ S8, S8 = S7.setAlloc y (some ly) := ⟨_, rfl⟩
+      have st8 : concatStep sz x y (S7, some s.allocs.length) (.unlock .other) = .ok (S8, some s.allocs.length) := by
+        simp only [concatStep, resolve, unlockAt_live g7y, ely, hS8]
+      have g8 : ∀ b, S8.getAlloc b = if y = b then some ly else S7.getAlloc b := by
+        intro b; rw [hS8]; exact getAlloc_setAlloc_live g7y _ b
+      rw [concatRun_cons_ok st8]
+      have g8x : S8.getAlloc x = some { lx with locked := true } := by
+        rw [g8, if_neg hyx, g7, if_neg hnx, g6, if_neg hnx, g5, if_neg hnx]; exact g4x
+      obtain ⟨S9, hS9⟩ : ∃ S9, S9 = S8.setAlloc x (some lx) := ⟨_, rfl⟩
+      have st9 : concatStep sz x y (S8, some s.allocs.length) (.unlock .self_) = .ok (S9, some s.allocs.length) := by
+        simp only [concatStep, resolve, unlockAt_live g8x, elx, hS9]
+      rw [concatRun_cons_ok st9]
+      right
+      refine ⟨{ ln2 with locked := false }, ?_, ?_, ?_, RawOk_locked ok2 false, rfl, ?_⟩
+      · simp only [concatRun]
+        congr 1
+        congr 1
+        have hslots : S9.slots = s.slots := by
+          rw [hS9, hS8, hS7, hS6, hS5, hS4, hS3, hS2, hS1]; rfl
+        have hlive : S9.live = s.live + lx.len + ly.len := by
+          rw [hS9, hS8, hS7, hS6, hS5, hS4, hS3, hS2, hS1]; rfl
+        have hallocs : S9.allocs = s.allocs ++ [some { ln2 with locked := false }] := by
+          rw [hS9, hS8, hS7, hS6, hS5, hS4, hS3, hS2, hS1]
+          exact concat_allocs_both s.allocs x y _ _ _ _ _ _ _ _ _ hxn hyn hxy gx gy
+        cases S9
+        simp only at hslots hlive hallocs
+        subst hslots hlive hallocs
+        rfl
+      · show ln2.elems = lx.elems ++ ly.elems
+        rw [y1, x1, e02]; rfl
+      · show ln2.len = lx.len + ly.len
+        rw [y2, x2, e01]; simp
+      · show ln2.rc = 1
+        rw [y4, x4]; exact e04
+
+/-- `ErasedList::concat` with the generated statements — sequential locking, or
+    both operands kept locked in address order, one lock when they are the same
+    list: never dead-locks, operands restored, the new list holds `self ++ other` -/
+theorem concat_ok (inv : Inv sz s) {x y : Nat} {lx ly : RawList}
+    (hx : s.getAlloc x = some lx) (hy : s.getAlloc y = some ly) :
+    (concatRun sz x y (s, none) (concatStepsFor x y) = .error .panic ∧
+      ∃ k, usizeMax < nextPow2 k ∧ k ≤ lx.len + ly.len) ∨
+    ∃ ln, concatRun sz x y (s, none) (concatStepsFor x y) =
+        .ok ({ (s.pushAlloc ln) with live := s.live + lx.len + ly.len }, some s.allocs.length) ∧
+      ln.elems = lx.elems ++ ly.elems ∧ ln.len = lx.len + ly.len ∧ RawOk sz ln ∧
+      ln.locked = false ∧ ln.rc = 1 := by
+  have shape : (Gen.ListLocks.concatStepsSame = seqSteps ∧ Gen.ListLocks.concatStepsLt = seqSteps ∧
+        Gen.ListLocks.concatStepsGe = seqSteps) ∨
+      (Gen.ListLocks.concatStepsSame = sameSteps ∧ Gen.ListLocks.concatStepsLt = ltSteps ∧
+        Gen.ListLocks.concatStepsGe = geSteps) := by decide
+  have kx := (inv.raw x lx hx).2.1
+  have ky := (inv.raw y ly hy).2.1
+  unfold concatStepsFor
+  rcases shape with ⟨h1, h2, h3⟩ | ⟨h1, h2, h3⟩
+  · rw [h1, h2, h3]
+    have := concat_ok_seq inv hx hy
+    split
+    · exact this
+    · split <;> exact this
+  · rw [h1, h2, h3]
+    by_cases hxy : x = y
+    · subst hxy
+      rw [hx] at hy; injection hy with hy; subst hy
+      rw [if_pos rfl]
+      exact concat_ok_same inv hx
+    · rw [if_neg hxy]
+      have tail := concat_ok_tail inv hx hy hxy
+      split
+      · -- lock self, lock other
+        unfold ltSteps
+        have st1 : concatStep sz x y (s, none) (.lock .self_) =
+            .ok (s.setAlloc x (some { lx with locked := true }), none) := by
+          simp only [concatStep, resolve, acquire_live hx kx]
+        have g1y : (s.setAlloc x (some { lx with locked := true })).getAlloc y = some ly := by
+          rw [getAlloc_setAlloc_live hx, if_neg hxy]; exact hy
+        have st2 : concatStep sz x y (s.setAlloc x (some { lx with locked := true }), none) (.lock .other) =
+            .ok ((s.setAlloc x (some { lx with locked := true })).setAlloc y (some { ly with locked := true }), none) := by
+          simp only [concatStep, resolve, acquire_live g1y ky]
+        rw [concatRun_cons_ok st1, concatRun_cons_ok st2]
+        exact tail
+      · -- lock other, lock self
+        unfold geSteps
+        have st1 : concatStep sz x y (s, none) (.lock .other) =
+            .ok (s.setAlloc y (some { ly with locked := true }), none) := by
+          simp only [concatStep, resolve, acquire_live hy ky]
+        have g1x : (s.setAlloc y (some { ly with locked := true })).getAlloc x = some lx := by
+          rw [getAlloc_setAlloc_live hy, if_neg (Ne.symm hxy)]; exact hx
+        have st2 : concatStep sz x y (s.setAlloc y (some { ly with locked := true }), none) (.lock .self_) =
+            .ok ((s.setAlloc y (some { ly with locked := true })).setAlloc x (some { lx with locked := true }), none) := by
+          simp only [concatStep, resolve, acquire_live g1x kx]
+        rw [concatRun_cons_ok st1, concatRun_cons_ok st2, setAlloc_comm _ (Ne.symm hxy)]
+        exact tail
 
 theorem good_concat (inv : Inv sz s) (rel : Rel s t) (d a b : Nat) : Good sz s t (.concat d a b) := by
   rcases slot_dec s a with ⟨x, hsa⟩ | hsa
